@@ -19,6 +19,8 @@ def describe(sc):
         c = sc["case"]
         return "loop entry=%d shapes=%d->%d T=%d n=%s s=%s panic=%s pb=%s" % (
             c["entry"], c["ishape"], c["oshape"], c["threads"], c["sample_count"], c["sample_size"], c["panic"], sc.get("pb"))
+    if sc["kind"] == "entrylist":
+        return "entry list: threads push %s nodes each, pb=%s" % (sc["pushes"], sc.get("pb"))
     return json.dumps(sc)
 
 
@@ -106,6 +108,8 @@ def run(job, tier, seed, binpath, env, ncpu):
                     res["samples"].append({"shim_outcomes": r["shim"]})
             else:
                 vprop = out["prop"] or prop
+                if sc["kind"] not in ("pool", "loop"):
+                    vprop = prop   # single-purpose scenarios: any failure is this check's
                 if vprop != prop and not (prop == "C07" and out["class"] in ("deadlock", "abort")):
                     # another property's oracle fired inside this job: not this check's verdict
                     if not (out["prop"] is None):
@@ -119,8 +123,8 @@ def run(job, tier, seed, binpath, env, ncpu):
     if not res["samples"]:
         res["samples"] = [{"scenario": describe(scenarios[0])}] if scenarios else []
     res["wall_s"] = time.time() - t0
-    if res["states"] == 0 and not res["violations"]:
-        res["states"] = 0
+    if scenarios and res["states"] == 0 and not res["violations"]:
+        raise Machinery("loom job for %s explored nothing (%d scenarios, none completed and none attributed)" % (prop, len(scenarios)))
     return [res]
 
 
